@@ -62,6 +62,11 @@ Theorem C16_not_before_ten :
 Proof. exact nine_failures_open. Qed.
 Print Assumptions C16_not_before_ten.
 
+(* the constants the statements above use are the ones in the source today (regenerated each run) *)
+Theorem C16_generated_constants : fail_limit = 10 /\ disc_svc = 7 /\ disc_nomore = 14.
+Proof. exact generated_constants. Qed.
+Print Assumptions C16_generated_constants.
+
 (* non-vacuity: ten failed passwords close the connection, the eleventh is not evaluated *)
 Definition failpw : amsg * env :=
   (Msg50 [97] s_connection (BPassword false), MkEnv RFailed false false [] true 1 true false false).
